@@ -56,6 +56,12 @@ def runs(tier):
         g = rnd.choice([[], [2], [3], [2, 2], [1, 3]])
         cfgs.append(mk(g, nca=nca, cases=[list(c) for c in cs], shuffle=rnd.random() < 0.6, pool=rnd.random() < 0.4,
                        kind=rnd.choice(["nested", "nested", "flat"])))
+    # more than nine cases / coordinate values per argument
+    allc = list(itertools.product(range(1, 13), repeat=1))
+    cfgs.append(mk([], nca=1, cases=[list(c) for c in rnd.sample(allc, 11)], shuffle=True, kind="nested"))
+    allc2 = list(itertools.product(range(1, 12), range(1, 3)))
+    cfgs.append(mk([2], nca=2, cases=[list(c) for c in rnd.sample(allc2, 12)], shuffle=False, kind="nested"))
+    cfgs.append(mk([], nca=2, cases=[list(c) for c in rnd.sample(allc2, 10)], shuffle=True, pool=True, kind="flat"))
     out.append(dict(name="C02_big", configs=cfgs, max_perm=4, check=False,
                     simulate=120 if tier == "quick" else 2000, depth=200))
     return out
